@@ -71,12 +71,15 @@ def drive(strategy, evaluate, n_examples: int, seed_parts, res: ShardResult, shr
                 res.harness_errors.append("generator produced an invalid case: " + o.what + "\ncase: " + canon(case)[:1500])
         return o
 
+    # Hypothesis always starts with the all-zero ("simplest") example, the same one in every shard: only shard 0 evaluates it,
+    # the other shards skip it and get one more generated example instead
+    skip_simplest = len(seed_parts) > 2 and isinstance(seed_parts[2], int) and seed_parts[2] != 0
     for round_ in range(max_buckets + 1):
-        state = {"best": None, "calls_after_fail": 0, "t_fail": None}
+        state = {"best": None, "calls_after_fail": 0, "t_fail": None, "calls": 0}
 
         @hypothesis.seed(derive_seed(*seed_parts))
         @settings(
-            max_examples=n_examples,
+            max_examples=n_examples + (1 if skip_simplest else 0),
             database=None,
             deadline=None,
             report_multiple_bugs=False,
@@ -86,6 +89,9 @@ def drive(strategy, evaluate, n_examples: int, seed_parts, res: ShardResult, shr
         )
         @given(strategy)
         def test(case):
+            state["calls"] += 1
+            if skip_simplest and state["calls"] == 1:
+                return
             if state["best"] is not None:
                 state["calls_after_fail"] += 1
                 # the shrink budget (evaluations and wall time) only limits how small the reported case gets
